@@ -3,6 +3,8 @@ CONSTANTS
   MaxTraits = 1
   MaxTAttrs = 1
   MaxMembers = 1
+  MaxVFields = 0
+  VFMenu = {}
   MaxMAttrs = 2
   DTs = {"struct", "enum"}
   Shapes = {"named"}
